@@ -14,7 +14,8 @@ EXPLANATION = (
     'neighbors[c], observation descriptor events) and call calc_rdm with method and descriptor="events", the chunk result '
     'is stored at the chunk\'s own indices and voxel_index is `centers`; (FWD) method reaches calc_rdm, method and theta '
     'reach the evaluation function; (ORDER) results come from one joblib Parallel call in list mode over sl_RDM in order - '
-    'no unordered generator, no as_completed, no later sort. Exact voxel sets and equality of RDM values are NOT decided.')
+    'no unordered generator, no as_completed, no later sort. Exact voxel sets and equality of RDM values are NOT decided.'
+    ' SIB clauses whose syntactic anchor (np.split) is gone are reported undecided.')
 ASSUMPTIONS = ['joblib.Parallel in its default list mode returns results in input order',
                'scipy cdist(..., "euclidean") is the Euclidean distance']
 FLOOR = 25
